@@ -4,6 +4,6 @@ from dtcommon import run_dt
 
 def run(ctx):
     run_dt(ctx, "C05")
-    return ctx.finish(rule="U1: DataTypes.tla self-check; U3: TLC computes the layout relation Rel(type, value, bytes) of the specification for "
+    return ctx.finish(level="exploration", rule="evaluations = codec / calendar calls of the real library recorded and judged by TLC (Rel); distinct_nontrivial = scenario groups (data type x kind of call) validated; " + "U1: DataTypes.tla self-check; U3: TLC computes the layout relation Rel(type, value, bytes) of the specification for "
                            "the bytes the library wrote, for the value it read from harness-made bytes, for the data field inside a PARAMS "
                            "package, and for the calendar helpers of asetime")
